@@ -11,4 +11,11 @@ def lazyDecoderClonesInSafeMode : Bool := true
 /-- lazyproto.Decode (package level) always decodes a clone of the input -/
 def lazyDecodeFuncClones : Bool := true
 
+/-- decoder.go NewDecoder: the body is `return &Decoder{…}` — a newly constructed value, nothing recycled -/
+def newDecoderIsFreshLiteral : Bool := true
+/-- the fields that literal sets (every other field, `mode` included, has its zero value: DecoderModeSafe) -/
+def newDecoderLiteralFields : List String := ["p", "offset"]
+/-- the functions of package csproto that assign the `mode` field of a Decoder -/
+def decoderModeWriters : List String := ["SetMode"]
+
 end Csproto.Generated
